@@ -123,6 +123,10 @@ def gen_tree(rng, root):
                     f.write("not a module\n")
             if rng.random() < 0.15:
                 os.makedirs(os.path.join(dirpath, "sub.bloch"), exist_ok=True)  # a directory
+            if rng.random() < 0.2:
+                # editor backups and notes: the name contains ".bloch" but does not end in it
+                with open(os.path.join(dirpath, rng.choice(["Util.bloch.orig", "M1.bloch.txt", "x.bloch~", ".bloch.swp"])), "w") as f:
+                    f.write("this is not a module {{{\n")
     # a symlinked duplicate of one module under another name / root
     if mods and rng.random() < 0.3:
         m = rng.choice(mods)
